@@ -93,6 +93,22 @@ CLAIMED = {
              "on drop by construction of the fix (8c... in /repo) and are exercised by the repository's own tests only.",
         note=COMMON_NOTE + "Cancellation inside third-party futures (fibre, tokio) is assumed safe except for the recorded finding.",
         design="§8 C09"),
+    "C10": dict(
+        engine="M5 ReqRep",
+        technique="Lean 4 theorems: invariants by induction over every event sequence of a lock-scope-granularity model of the REQ and REP state "
+                  "machines (any number of tasks, peer replies/detaches, failed/cancelled calls); tie: translator re-extracts which lock scopes "
+                  "claim, roll back and guard (theorem `current_source_is_the_proved_instance`), stack-level race and scripted-history scenarios on "
+                  "real sockets with race-free oracles at the peer",
+        text="Proof over the model: REQ - with no exchange given up the successful operations strictly alternate send, recv, ... for every "
+             "interleaving; for every history (time-outs, dropped futures, vanishing peers) two sends never succeed without a recv or a given-up "
+             "exchange in between, never more replies than requests, the state the next call is judged by is exactly what the log says, refused "
+             "calls change nothing but a counter, a failed send never leaves the socket stuck; REP - operations alternate recv, send and every reply "
+             "goes to the peer whose request it answers; the three earlier shapes of the code (check-then-act, unguarded late receive, guarded "
+             "successful receive) are proved unsafe by explicit traces. 17 theorems. Partial: lock scopes are taken as atomic and their list is "
+             "matched by pattern; a recv() that times out gives the exchange up by design (the strict statement excludes such histories); the "
+             "multi-thread runtime's schedules are searched, not enumerated.",
+        note=COMMON_NOTE + "parking_lot mutex scopes are assumed atomic; the await points inside send/recv are modelled as separate events.",
+        design="§8 C10"),
     "C11": dict(
         engine="M6 Routing",
         technique="Lean 4 refinement of the ROUTER identity map to a per-pipe specification for every history (soundness) and every "
